@@ -137,6 +137,32 @@ fn run_op(dir: &Path, kind: &str, op: &Value) -> Value {
                 json!({"ok": true, "hash": u.interface_hash})
             }
         }
+        "repin" => {
+            // overwrite the hash a core pins for one dependency with the hash that dependency's core exports NOW:
+            // in the top-level deps ("top"), in the embedded interface's deps ("interface"), or in both
+            let p = dir.join(op["file"].as_str().unwrap());
+            let from = dir.join(op["from"].as_str().unwrap());
+            let dep = op["dep"].as_str().unwrap().to_string();
+            let wh = op["where"].as_str().unwrap();
+            let rd = |p: &std::path::Path| -> Result<compiler::artifact::CoreUnit, String> {
+                let t = std::fs::read_to_string(p).map_err(|e| e.to_string())?;
+                serde_json::from_str(&t).map_err(|e| e.to_string())
+            };
+            let (mut u, d) = match (rd(&p), rd(&from)) {
+                (Ok(u), Ok(d)) => (u, d),
+                (Err(e), _) | (_, Err(e)) => return json!({"ok": false, "err": e}),
+            };
+            let h = d.interface.interface_hash.clone();
+            let old = u.deps.get(&dep).cloned();
+            if wh == "top" || wh == "both" {
+                u.deps.insert(dep.clone(), h.clone());
+            }
+            if wh == "interface" || wh == "both" {
+                u.interface.deps.insert(dep.clone(), h.clone());
+            }
+            std::fs::write(&p, serde_json::to_string_pretty(&u).unwrap()).unwrap();
+            json!({"ok": true, "changed": old.as_deref() != Some(h.as_str())})
+        }
         "patch" => {
             let p = dir.join(op["file"].as_str().unwrap());
             let text = match std::fs::read_to_string(&p) {
